@@ -8,28 +8,29 @@
 set -u
 name=$1; patch=$(readlink -f "$2"); shift 2
 root=/tmp/mt/$name
-rm -rf "$root"; mkdir -p "$root/out/work" /tmp/mt/target
+T=${MT_TARGET:-/tmp/mt/target}
+rm -rf "$root"; mkdir -p "$root/out/work" $T
 git -C /repo worktree add --detach -q "$root/repo" HEAD || exit 2
 cp /repo/Cargo.lock "$root/repo/Cargo.lock" 2>/dev/null
 ( cd "$root/repo" && git apply "$patch" ) || { echo "$name PATCH-DOES-NOT-APPLY"; git -C /repo worktree remove --force "$root/repo"; exit 2; }
 export CARGO_NET_OFFLINE=true CARGO_TERM_COLOR=never
 if [ "${BASELINE:-0}" = 1 ]; then
-  ( cd "$root/repo" && CARGO_TARGET_DIR=/tmp/mt/target-repo cargo test --workspace --no-fail-fast --offline >"$root/baseline.log" 2>&1 )
+  ( cd "$root/repo" && CARGO_TARGET_DIR=$T-repo cargo test --workspace --no-fail-fast --offline >"$root/baseline.log" 2>&1 )
   if grep -q "test result: FAILED\|error\[" "$root/baseline.log"; then echo "$name BASELINE-FAILS (see $root/baseline.log)"; grep -E "^test .* FAILED|^error" "$root/baseline.log" | head -5; else
     echo "$name baseline: $(grep -c '^test .* ok$' "$root/baseline.log") tests ok, 0 failed"; fi
 fi
 rsync -a --exclude target /verif/mc/ "$root/mc/"
 sed -i "s|/repo/|$root/repo/|g" "$root/mc/mc/Cargo.toml"
-( cd "$root/mc" && RUSTFLAGS="--cfg unic_locale_verif" CARGO_TARGET_DIR=/tmp/mt/target cargo build --release --offline -q --features likelysubtags,serde -p mc 2>"$root/build.log" ) \
+( cd "$root/mc" && RUSTFLAGS="--cfg unic_locale_verif" CARGO_TARGET_DIR=$T cargo build --release --offline -q --features likelysubtags,serde -p mc 2>"$root/build.log" ) \
   || { echo "$name BUILD-FAILS"; tail -20 "$root/build.log"; [ "${KEEP:-0}" = 1 ] || { git -C /repo worktree remove --force "$root/repo"; rm -rf "$root"; }; exit 2; }
-cp /tmp/mt/target/release/mc "$root/mc-full"
+cp $T/release/mc "$root/mc-full"
 needs_base=0; for id in "$@"; do case $id in C14|C20) needs_base=1;; esac; done
 if [ $needs_base = 1 ]; then
-  ( cd "$root/mc" && CARGO_TARGET_DIR=/tmp/mt/target-base cargo build --release --offline -q -p mc 2>>"$root/build.log" ) || echo "$name BASE-BUILD-FAILS"
-  cp /tmp/mt/target-base/release/mc "$root/mc-base"
+  ( cd "$root/mc" && CARGO_TARGET_DIR=$T-base cargo build --release --offline -q -p mc 2>>"$root/build.log" ) || echo "$name BASE-BUILD-FAILS"
+  cp $T-base/release/mc "$root/mc-base"
 fi
 for id in "$@"; do
-  VERIF_REPO="$root/repo" VERIF_DIR="$root/out" VERIF_BASE_MC="$root/mc-base" VERIF_GEN_TARGET=/tmp/mt/target-gen VERIF_C16_TARGET=/tmp/mt/target-c16 VERIF_C20_TARGET=/tmp/mt/target-c20 VERIF_MC_SRC="$root/mc" \
+  VERIF_REPO="$root/repo" VERIF_DIR="$root/out" VERIF_BASE_MC="$root/mc-base" VERIF_GEN_TARGET=$T-gen VERIF_C16_TARGET=$T-c16 VERIF_C20_TARGET=$T-c20 VERIF_MC_SRC="$root/mc" \
     "$root/mc-full" run "$id" "${TIER:-quick}" >"$root/$id.out" 2>"$root/$id.err"
   code=$?
   line=$(grep -m1 -E "^VIOLATION|^KNOWN-FINDING|^HELD|^FAILED" "$root/$id.out"); [ -z "$line" ] && line=$(tail -1 "$root/$id.err")
